@@ -50,7 +50,7 @@ func faultList(thorough bool, rng *vsup.Rng) []fault {
 	add("write", "EPIPE", true, ks, both)
 	add("write", "ECONNRESET", true, ks[:1], both)
 	add("writev", "EPIPE", true, ks[:1], both)
-	add("epoll_ctl", "ENOMEM", true, []int{3, 4, 6}, both)
+	// (epoll_ctl faults are enumerated adaptively by TestVerifFaults: until ADD, MOD and DEL have each been hit)
 	add("read", "EAGAIN", false, ks[:1], lt)
 	add("write", "EAGAIN", false, ks[:1], lt)
 	add("epoll_wait", "EINTR", false, ks, both)
@@ -60,7 +60,7 @@ func faultList(thorough bool, rng *vsup.Rng) []fault {
 		// a seeded half in the quick tier
 		var pick []fault
 		for _, f := range out {
-			if rng.Intn(2) == 0 || f.syscall == "epoll_ctl" {
+			if rng.Intn(2) == 0 {
 				pick = append(pick, f)
 			}
 		}
@@ -110,7 +110,7 @@ func contains(s, sub string) bool {
 	return false
 }
 
-func runFaultScenario(t *testing.T, rec *recorder, f fault, seed uint64, scratch string, rep *vsup.Report) bool {
+func runFaultScenario(t *testing.T, rec *recorder, f fault, seed uint64, scratch string, rep *vsup.Report) (bool, []string) {
 	rng := vsup.NewRng(seed)
 	cfg := &sysCfg{name: "fault", network: "tcp", et: f.et, loops: 1, reuseport: true, readCap: 2048, writeCap: 4096, conns: 4}
 	rec.emit("Reset", "cfg", fmt.Sprintf("fault %s:%s:when=%d et=%v", f.syscall, f.errno, f.when, f.et), "et", f.et, "loops", 1)
@@ -138,7 +138,7 @@ func runFaultScenario(t *testing.T, rec *recorder, f fault, seed uint64, scratch
 	tid := int(atomic.LoadInt32(&h.loopTid))
 	if tid == 0 {
 		rec.emit("FaultSkip", "why", "no loop thread id")
-		return false
+		return false, nil
 	}
 	straceLog := filepath.Join(scratch, fmt.Sprintf("strace.%d.log", seed%100000))
 	cmd, err := attachStrace(tid, f, straceLog)
@@ -146,7 +146,7 @@ func runFaultScenario(t *testing.T, rec *recorder, f fault, seed uint64, scratch
 		rec.emit("FaultSkip", "why", err.Error())
 		_ = h.eng.Stop(context.Background())
 		<-runErr
-		return false
+		return false, nil
 	}
 	rec.emit("FaultArmed", "syscall", f.syscall, "errno", f.errno, "when", f.when, "hard", f.hard)
 	var wg sync.WaitGroup
@@ -175,6 +175,7 @@ func runFaultScenario(t *testing.T, rec *recorder, f fault, seed uint64, scratch
 	rec.emit("FaultDisarmed")
 	// where did the fault land?  strace counts every call of that name on the loop's thread, including the
 	// writes to the poller's own eventfd (wake-ups), which are not calls made on behalf of a connection
+	var hits []string
 	if raw, err := os.ReadFile(straceLog); err == nil {
 		for _, line := range strings.Split(string(raw), "\n") {
 			if !strings.Contains(line, "(INJECTED)") {
@@ -185,6 +186,7 @@ func runFaultScenario(t *testing.T, rec *recorder, f fault, seed uint64, scratch
 				fmt.Sscanf(line[i+1:], "%d", &fd)
 			}
 			rec.emit("FaultHit", "line", line, "fd", fd, "eventfd", rec.isEventfd(fd))
+			hits = append(hits, line)
 		}
 		_ = os.Remove(straceLog)
 	}
@@ -211,7 +213,7 @@ func runFaultScenario(t *testing.T, rec *recorder, f fault, seed uint64, scratch
 	h.closeDups(true)
 	rec.emit("Grace")
 	rep.Eval(fmt.Sprintf("fault-%s-%s-%d-%v", f.syscall, f.errno, f.when, f.et))
-	return true
+	return true, hits
 }
 
 func TestVerifFaults(t *testing.T) {
@@ -229,10 +231,45 @@ func TestVerifFaults(t *testing.T) {
 	rng := vsup.NewRng(vsup.Seed() + 1818)
 	armed := 0
 	for _, f := range faultList(vsup.Thorough(), rng) {
-		if runFaultScenario(t, rec, f, rng.Uint64(), scratch, rep) {
+		if ok, _ := runFaultScenario(t, rec, f, rng.Uint64(), scratch, rep); ok {
 			armed++
 		}
 	}
+	// epoll_ctl: strace can only count calls, so the call index is raised until a registration (ADD), a change of
+	// interest (MOD, level-triggered mode only) and a removal (DEL) have each been failed at least once
+	ctlHits := map[string]int{}
+	for _, et := range []bool{false, true} {
+		want := map[string]bool{"EPOLL_CTL_ADD": true, "EPOLL_CTL_DEL": true}
+		if !et {
+			want["EPOLL_CTL_MOD"] = true
+		}
+		maxK := 9
+		if vsup.Thorough() {
+			maxK = 16
+		}
+		for k := 2; k <= maxK && len(want) > 0; k++ {
+			ok, hits := runFaultScenario(t, rec, fault{"epoll_ctl", "ENOMEM", k, et, true}, rng.Uint64(), scratch, rep)
+			if ok {
+				armed++
+			}
+			for _, line := range hits {
+				for op := range want {
+					if strings.Contains(line, op) {
+						delete(want, op)
+					}
+				}
+				for _, op := range []string{"EPOLL_CTL_ADD", "EPOLL_CTL_MOD", "EPOLL_CTL_DEL"} {
+					if strings.Contains(line, op) {
+						ctlHits[fmt.Sprintf("%s/et=%v", op, et)]++
+					}
+				}
+			}
+			if vsup.Thorough() {
+				want["never"] = true // the thorough tier walks through all the indices
+			}
+		}
+	}
+	rep.Set("epoll_ctl_faults_by_op", ctlHits)
 	rec.uninstall()
 	if err := rec.close(); err != nil {
 		t.Fatal(err)
